@@ -25,17 +25,18 @@ M_REPLACE = {"name": "put-duplicate-always-replaces", "file": "struct.c", "find"
              "expect": "keeps its value|unchanged"}
 
 
-def struct_unit(uid, cap, uniq, tier, timeout, mutants, clause):
-    bound = ("capacity %d: ALL well-formed bucket arrays with 0..%d entries before the call (up to the full table after it); "
+def struct_unit(uid, cap, uniq, tier, timeout, mutants, clause, k=None, maxlen=None):
+    k = k or cap
+    bound = ("capacity %d: ALL well-formed bucket arrays with 0..%d entries before the call (%s); "
              "abstract universe of %d pairwise different keys with an arbitrary hash function (all 2^32 hash values per key, so every "
              "home-bucket/collision/tie pattern) and arbitrary value words; independent of the number and order of earlier insertions"
-             % (cap, cap - 1, cap))
+             % (cap, (maxlen or cap) - 1, ("head->length <= %d, i.e. load factor <= 1/2 as in real structs" % maxlen) if maxlen else "up to the full table after it", k))
     if uniq:
         bound += "; uniqueness of the layout is claimed while at least one bucket stays empty (real structs: capacity > 2*length)"
     return {
         "id": uid, "props": ["C03"], "tier": tier, "class": "bounded", "bound": bound, "clause": clause,
         "src": ["struct.c"], "link": ["wrap.c"], "harness": ["val2_struct.c"], "entry": "h_struct_put_step", "mode": "plain",
-        "defines": ["-DV2_CAP=%d" % cap, "-DV2_K=%d" % cap] + ([] if uniq else ["-DV2_NO_UNIQ"]),
+        "defines": ["-DV2_CAP=%d" % cap, "-DV2_K=%d" % k] + ([] if uniq else ["-DV2_NO_UNIQ"]) + (["-DV2_MAXLEN=%d" % maxlen] if maxlen else []),
         "unwind": cap + 2, "unwindset": {"janet_struct_put_ext.0": cap + 1}, "timeout": timeout,
         "functions": ["janet_struct_put_ext"],
         "checks": ["bounds-check", "pointer-check", "signed-overflow-check", "div-by-zero-check"],
@@ -44,7 +45,7 @@ def struct_unit(uid, cap, uniq, tier, timeout, mutants, clause):
 
 
 units.append(struct_unit(
-    "struct.inv.put.cap4", 4, False, "thorough", 300, [M_STALE_HASH, M_TIE, M_HASHORD, M_DISTFLIP, M_COUNT, M_REPLACE],
+    "struct.inv.put.cap4", 4, False, "quick", 300, [M_STALE_HASH, M_TIE, M_HASHORD, M_DISTFLIP, M_COUNT, M_REPLACE],
     "inductive step: from ANY well-formed partially built struct (any number of entries already present) janet_struct_put_ext preserves the robin-hood "
     "representation invariant wf_struct (runs ordered by (distance, hash, compare); every key reachable from its home bucket without crossing an empty bucket) "
     "and adds exactly the new pair to the content (duplicates replace only on request; nil/NaN keys, nil values and extra items are ignored)"))
@@ -53,6 +54,11 @@ units.append(struct_unit(
     "inductive step + uniqueness: the bucket array left by janet_struct_put_ext on ANY well-formed struct is bit-identical to EVERY well-formed bucket array "
     "with the same key/value content - the layout is a function of the content alone, so structs built in any insertion order (any number of keys) "
     "have the same buckets, cached hash and compare as equal: structs compare by content"))
+
+units.append(struct_unit(
+    "struct.inv.put.cap8", 8, False, "thorough", 600, [M_STALE_HASH],
+    "inductive step at capacity 8: from ANY well-formed partially built struct with up to 3 entries janet_struct_put_ext preserves the robin-hood representation "
+    "invariant wf_struct and adds exactly the new pair to the content", k=5, maxlen=4))
 
 # ---------------------------------------------------------------- symcache.c
 SY_ASSUMES = [
@@ -106,7 +112,6 @@ units.append(sym_unit("sym.inv.symbol.cap4", "h_sym_symbol", 4, 4, "quick", 200,
                       [M_TOMB_NULL, M_PUT_COUNT, M_SYM_NOFIND, M_TOMB_STOPS], CL_SYMBOL, NORESIZE))
 units.append(sym_unit("sym.inv.findmem.cap8", "h_sym_findmem", 8, 5, "thorough", 600, ["janet_symcache_findmem"], [M_TOMB_NULL], CL_FIND))
 units.append(sym_unit("sym.inv.deinit.cap8", "h_sym_deinit", 8, 5, "thorough", 600, ["janet_symbol_deinit", "janet_symcache_findmem"], [M_DEINIT_NULL], CL_DEINIT))
-units.append(sym_unit("sym.inv.symbol.cap8", "h_sym_symbol", 8, 5, "thorough", 600, ["janet_symbol", "janet_symcache_put", "janet_symcache_findmem"], [M_TOMB_NULL], CL_SYMBOL, NORESIZE))
 units.append(sym_unit("sym.lemma.twice.cap4", "h_sym_intern_twice", 4, 4, "thorough", 600, ["janet_symbol", "janet_symcache_put", "janet_symcache_findmem"],
                       [M_SYM_NOFIND, M_TOMB_STOPS],
                       "symbols with the same bytes are identical: from ANY well-formed cache, interning the same bytes twice (two different caller buffers) yields the identical pointer, "
